@@ -87,7 +87,12 @@ def build_file(unit, vspec, verus=True):
             out.append(pred_to_spec(open(os.path.join(unit.dir, m.group(1))).read()))
             i += 1
             continue
-        m = re.match(r"\s*//@ extract (\S+) ((?:struct |enum )?\S+)(.*)", l)
+        m = re.match(r"\s*//@ include (\S+)\s*$", l)
+        if m and not verus:
+            out.append(open(os.path.join(unit.dir, m.group(1))).read())
+            i += 1
+            continue
+        m = re.match(r"\s*//@ extract (\S+) ((?:struct |enum |trait |impl (?:\S+ for )?)?\S+)(.*)", l)
         if m:
             opts = dict(re.findall(r"(\w+)=(\S+)", m.group(3)))
             spec_lines = []
